@@ -118,6 +118,7 @@ type amlFieldElem struct {
 	Bits   uint32 `json:"bits,omitempty"`
 	Type   uint8  `json:"type,omitempty"`   // access: access type
 	Attrib uint8  `json:"attrib,omitempty"` // access: attribute
+	Data   []byte `json:"data,omitempty"`   // connbuf: resource descriptor bytes
 	W      int    `json:"w,omitempty"`
 }
 
@@ -346,6 +347,14 @@ func amlEncodeFieldElems(l []amlFieldElem) []byte {
 			b = append(b, amlFieldLen(e.Bits, e.W)...)
 		case "access":
 			b = append(b, 0x01, e.Type, e.Attrib)
+		case "connbuf":
+			body := amlConst(amlBufLenKind(uint64(len(e.Data))), uint64(len(e.Data)))
+			body = append(body, e.Data...)
+			b = append(b, 0x02, 0x11)
+			b = append(b, amlPkg(body, e.W)...)
+		case "connname":
+			b = append(b, 0x02)
+			b = append(b, e.Name...)
 		}
 	}
 	return b
